@@ -66,7 +66,7 @@ def probe_globals(ev, cfg):
 def persistence_check(ctx, final=False):
     """a long-lived evaluator with its own handler, and evaluators on the library's default handler, must keep
     reporting the same (configured) empty-side values while other handlers come and go in the process"""
-    gm = ["DSC", "IOU", "ASSD", "RVD"]
+    gm = ["DSC", "IOU", "ASSD", "RVD", "clDSC"]
     base = {"input": "MATCHED_INSTANCE", "matcher": None, "metrics": ["DSC", "IOU"], "global": gm}
     if ctx._persist is None:
         h = {m: PERMS[(11 + 17 * k) % len(PERMS)] for k, m in enumerate(GM)}
@@ -75,6 +75,11 @@ def persistence_check(ctx, final=False):
         ctx._persist = (ev, cfg, probe_globals(ev, cfg), h)
         return
     ev, cfg, first, h = ctx._persist
+    try:  # an input of a dimensionality for which one of the requested metrics is not defined (may raise)
+        one_d = np.array([0, 1, 1, 0, 2, 2, 0], dtype=np.uint8)
+        pan.evaluate(ev, one_d, one_d.copy())
+    except Exception:  # noqa: BLE001
+        pass
     now = probe_globals(ev, cfg)
     ctx.count("C13.persistent_evaluator_rechecks")
     if harness_json(now) != harness_json(first):
